@@ -136,10 +136,93 @@ def reflow_semantics(w, S, fn, thorough=False):
     return True, n
 
 
+def resize_semantics(w, S, thorough=False):
+    """The buffer's resize evaluated whole on concrete small buffers: old width 1..3, 1..3 screen rows, 0..2 scrollback rows, row
+    contents over {full, one letter + blanks, blank}, soft-wrap patterns, every cursor position incl. col == cols, every new size
+    1..4 x 1..4 (a fixed thinning keeps about 2500 cases).  Required: no index / slice / subtraction panic; afterwards the line
+    vector has at least `rows` lines, every line has exactly `cols` cells, the last line is unmarked, the buffer records the new
+    size, and the returned cursor has row < rows and col <= cols (col < cols when the width changed).
+    -> (True, n) | (False, what)"""
+    import itertools
+    from rules import prims, c11
+    DP = c11.default_pen
+    bf0 = {f["name"]: (0 if f["ty"]["s"] == "usize" else False if f["ty"]["s"] == "bool" else H.NONE_V) for f in w.facts.struct_fields(S.buffer_ty)}
+    fn = S.buffer_resize_fn
+    n = k = 0
+    keep = 41 if thorough else 241
+    for cw in (1, 2, 3):
+        shapes = sorted({"x" * cw, "x" + " " * (cw - 1), " " * cw})
+        for rows in (1, 2, 3):
+            for sb in (0, 1, 2):
+                total = rows + sb
+                for shp in itertools.product(shapes, repeat=total):
+                    for marks in itertools.product((False, True), repeat=total - 1):
+                        for (nc, nr) in itertools.product((1, 2, 3, 4), (1, 2, 3, 4)):
+                            if (nc, nr) == (cw, rows):
+                                continue
+                            k += 1
+                            if k % keep and total > 1:
+                                continue
+                            marks_ = list(marks) + [False]
+                            for cur in ((0, 0), (cw, rows - 1), (cw - 1, rows - 1), (0, rows - 1)):
+                                lines = [("obj", S.line_ty, {S.cells_field: prims.Vec([("v", "cell::Cell", (("chr", 32 if c == " " else 120), DP())) for c in s_]), S.wrap_field: m})
+                                         for s_, m in zip(shp, marks_)]
+                                bf = dict(bf0)
+                                bf.update({S.lines_field: prims.Vec(lines), S.buf_cols: cw, S.buf_rows: rows})
+                                desc = "a %dx%d buffer with %d scrollback row(s), rows %s, cursor %s resized to %dx%d" % (cw, rows, sb, list(zip(shp, marks_)), cur, nc, nr)
+                                try:
+                                    r = c11.StrInterp(w.facts).call_fn(fn, [("obj", S.buffer_ty, bf), nc, nr, ("t", cur)])
+                                except prims.errs() as ex:
+                                    msg = str(ex)
+                                    if any(x in msg for x in ("panic", "underflow", "out of bounds", "overflow")):
+                                        return False, "%s: %s" % (desc, msg)
+                                    return "undecided", "outside the evaluated fragment: %s" % msg          # a construct the evaluator does not model: no verdict, no alarm
+                                n += 1
+                                ls = bf[S.lines_field].items
+                                if len(ls) < nr:
+                                    return False, "%s: %d lines for %d rows" % (desc, len(ls), nr)
+                                if any(len(l[2][S.cells_field].items) != nc for l in ls):
+                                    return False, "%s: a line with %s cells" % (desc, sorted({len(l[2][S.cells_field].items) for l in ls}))
+                                if ls[-1][2][S.wrap_field]:
+                                    return False, "%s: the last line is marked soft-wrapped" % desc
+                                if (bf[S.buf_cols], bf[S.buf_rows]) != (nc, nr):
+                                    return False, "%s: the buffer records %sx%s" % (desc, bf[S.buf_cols], bf[S.buf_rows])
+                                if not (isinstance(r, tuple) and r[0] == "t" and len(r[1]) == 2 and all(isinstance(x, int) for x in r[1])):
+                                    return False, "%s: returns %r" % (desc, r)
+                                c_, r_ = r[1]
+                                if not (0 <= r_ < nr and 0 <= c_ <= nc and (c_ < nc or nc == cw)):
+                                    return False, "%s: returns the cursor (%d,%d)" % (desc, c_, r_)
+    return True, n
+
+
+def resize_rule(ctx, w, S, rule):
+    ctx.rule(rule, "the buffer's resize evaluated whole on concrete small buffers (old width 1..3, 1..3 rows, 0..2 scrollback rows, row contents, soft-wrap patterns, cursor positions incl. col == cols, new sizes "
+                   "1..4 x 1..4): it cannot panic; afterwards at least `rows` lines, every line exactly `cols` cells, last line unmarked, the new size recorded, the returned cursor inside the new screen")
+    if not S.buffer_resize_fn:
+        ctx.missing_anchor(rule, "the buffer's resize routine")
+        return
+    c = getattr(w.facts, "_resize_verdict", None)
+    if c is None:
+        try:
+            c = resize_semantics(w, S, thorough=getattr(ctx, "tier", "") == "thorough")
+        except Exception as ex:
+            c = (False, "cannot evaluate %s: %r" % (S.buffer_resize_fn, ex))
+        w.facts._resize_verdict = c
+    if c[0] == "undecided":
+        ctx.ok(rule, "not-decided", {"reason": c[1]})
+        return
+    ctx.check(c[0] is True, rule, "resize", str(c[1]), loc=w.fn_loc(S.buffer_resize_fn), sample={"cases": c[1]})
+    if c[0] is True:
+        ctx.rule_counts[rule] = c[1]
+        if c[1] < 1000:
+            ctx.violation(rule, "floor", "only %d resize evaluations (floor 1000)" % c[1])
+
+
 def run(ctx, w):
     S = shared.screen(w)
     R = shared.roles(w)
     E = w.E
+    resize_rule(ctx, w, S, "Q10")
     # Q9: the re-wrapping itself, evaluated
     ctx.rule("Q9", "the re-wrapping routine evaluated on concrete line vectors (old width 1..3, 1..3 rows over letters / default blanks / painted blanks, every soft-wrap pattern, every new width 1..5): "
                    "rows of exactly the new width, last row unmarked, and the same sequence of logical lines (trailing default cells aside) before and after")
